@@ -136,3 +136,64 @@ pub open spec fn latin1(b: Seq<u8>) -> Seq<char> { Seq::new(b.len(), |i: int| b[
 //@ after 1 `result.push(*b as char);`
         proof { assert(result@ =~= latin1(bytes@.subrange(0, it.index + 1))); }
 //@ end
+
+/// a normalised element is well-escaped: every '%' is followed by two hex digits
+pub open spec fn well_escaped(s: Seq<u8>) -> bool { decode_from(s, 0, false) is Some }
+
+//@ fn canonical.rs unescape_uri_encoding
+//@ props C08 C02 C19
+//@ ret r
+//@ spec
+    requires well_escaped(s.spec_bytes()), //# C08 name=documented_panic_on_malformed_escape_is_excluded
+    ensures r@ == latin1(decode_from(s.spec_bytes(), 0, false)->Some_0), //# C02 C19 name=percent_decoded_as_latin1
+//@ before 1 `while let Some(c) = chars.next() {`
+    let ghost sb = s.spec_bytes();
+    let ghost mut acc: Seq<u8> = Seq::empty();
+    proof { assert(latin1(acc) =~= Seq::<char>::empty()); broadcast use axiom_str_len_isize; }
+//@ loop 1
+        invariant
+            sb == s.spec_bytes(),
+            bytes_rest(chars).len() <= sb.len(),
+            bytes_rest(chars) == sb.subrange(sb.len() - bytes_rest(chars).len(), sb.len() as int),
+            decode_from(sb, 0, false) is Some,
+            decode_from(sb, 0, false) == pre(acc, decode_from(sb, sb.len() - bytes_rest(chars).len(), false)),
+            result@ == latin1(acc),
+        ensures
+            bytes_rest(chars).len() == 0,
+        decreases bytes_rest(chars).len()
+//@ before 1 `if c == b'%' {`
+        let ghost i = sb.len() - bytes_rest(chars).len() - 1;
+        let ghost acc0 = acc;
+        proof {
+            assert(c == sb[i]);
+            lemma_pre_assoc(acc0, seq![sb[i]], decode_from(sb, i + 1, false));
+            if i + 2 < sb.len() {
+                lemma_pre_assoc(acc0, seq![(16 * hexval(sb[i + 1]) + hexval(sb[i + 2])) as u8], decode_from(sb, i + 3, false));
+            }
+        }
+//@ before 1 `match u8::from_str_radix(from_utf8(&hex_digits).unwrap(), 16) {`
+            proof {
+                assert(hex_digits@ =~= seq![sb[i + 1], sb[i + 2]]);
+                assert(all_ascii(hex_digits@));
+            }
+//@ after 1 `hex_digits[1] as char),<NL>            }`
+            proof {
+                let b = (16 * hexval(sb[i + 1]) + hexval(sb[i + 2])) as u8;
+                acc = acc0.push(b);
+                assert(acc0 + seq![b] =~= acc);
+                assert(result@ =~= latin1(acc));
+            }
+//@ after 1 `result.push(c as char);`
+            proof {
+                acc = acc0.push(sb[i]);
+                assert(acc0 + seq![sb[i]] =~= acc);
+                assert(result@ =~= latin1(acc));
+            }
+//@ before 1 `result<NL>}`
+    proof {
+        assert(bytes_rest(chars).len() == 0);
+        assert(decode_from(sb, sb.len() as int, false) == Some(Seq::<u8>::empty()));
+        assert(acc + Seq::<u8>::empty() =~= acc);
+        assert(decode_from(sb, 0, false) == Some(acc));
+    }
+//@ end
